@@ -15,7 +15,7 @@ RULE = ('proof: Properties/C07.v (include-any/exclude-none; order and repetition
 
 PIECES = ['a', 'b*', '*.txt', '?', '[ab]c', '.x', '*', 'a/b', '*/a', '!(a)', '@(a|b)x', 'a\\|b', '\\!a', '\\-a', '[|]', '*(a|b)',
           '!a', '-a', 'x.txt', '**', '.*', '(a)', '(a|b)']
-NAMES = ['(a)', 'a', 'b', 'ab', 'a.txt', 'x.txt', '.x', '.a', 'a/b', 'c/a', 'a|b', '!a', '-a', 'ac', '|', 'ax', 'bx', 'a/', 'x/y/a']
+NAMES = ['(a)', 'a', 'b', 'ab', 'a\n', 'ab\n', 'x.txt\n', 'a.txt', 'x.txt', '.x', '.a', 'a/b', 'c/a', 'a|b', '!a', '-a', 'ac', '|', 'ax', 'bx', 'a/', 'x/y/a']
 
 
 def single(mod, name, pat, flags_single):
